@@ -50,6 +50,8 @@ def build(sc: dict, lead: int = 0):
         cfg["realization_filters"] = [{"method": "cvar-constraint", "options": {"sort": 1, "percentile": p}}]
         col = ("con", 1)
     if lead:
+        # ... and non-uniform configured realization weights with zeros: the CVaR weights do not depend on them
+        cfg["realizations"]["weights"] = [1.0] if n == 1 else [float((i + lead) % 3) for i in range(n)] if n > 2 else [0.0, 2.0]
         unused = [{"method": "sort-objective", "options": {"sort": [0], "first": 0, "last": 0}},
                   {"method": "cvar-objective", "options": {"sort": [0], "percentile": 0.5}}][:lead]
         cfg["realization_filters"] = unused + cfg["realization_filters"]
@@ -108,7 +110,7 @@ def drive(sc: dict):
     trace.append({**base, "ev": "CVaR", "via": "e2e", "outcome": outcome,
                   "w": nums(w) if w is not None else [], "value": num(value)})
     # -- the same, as the second evaluation of one evaluator object (the first one without failures, other values),
-    #    with configured but unreferenced filters in front of the CVaR filter
+    #    with configured but unreferenced filters in front of the CVaR filter and zeros among the configured weights
     lead = 1 + (sc["n"] + sc["k"]) % 2
     config2, *_ = build(sc, lead=lead)
     ev2 = _WarmTable(o, c, -objs[::-1].copy(), None if cons is None else -cons[::-1].copy())
